@@ -15,9 +15,41 @@ PYOP = {'add': '+', 'sub': '-', 'mul': '*', 'and': '&', 'or': '|', 'xor': '^', '
         'eq': '==', 'ne': '!=', 'lt': '<', 'le': '<=', 'gt': '>', 'ge': '>='}
 _uid = itertools.count()
 
+class StructT:
+  """a bitstruct type: fields = [(name, width:int | StructT)]; layout: first field most significant"""
+  def __init__(self, name, fields):
+    self.name, self.fields = name, fields
+    self.width = sum(f[1] if isinstance(f[1], int) else f[1].width for f in fields)
+  def named(self, prefix='', base=None):
+    """all named sub-ranges [(path, lo, w, is_leaf)], whole struct excluded"""
+    out = []
+    hi = self.width if base is None else base
+    for fname, ft in self.fields:
+      w = ft if isinstance(ft, int) else ft.width
+      lo = hi - w
+      out.append((prefix + fname, lo, w, isinstance(ft, int)))
+      if not isinstance(ft, int): out += ft.named(prefix + fname + '.', hi)
+      hi = lo
+    return out
+  def leaves(self):
+    return [(p, lo, w) for (p, lo, w, leaf) in self.named() if leaf]
+  def all_types(self):
+    out = []
+    for _, ft in self.fields:
+      if not isinstance(ft, int):
+        for t in ft.all_types():
+          if t not in out: out.append(t)
+    out.append(self)
+    return out
+  def py_source(self):
+    lines = ['@bitstruct', f'class {self.name}:']
+    for fname, ft in self.fields:
+      lines.append(f'  {fname}: ' + (f'Bits{ft}' if isinstance(ft, int) else ft.name))
+    return lines
+
 class Sig:
-  def __init__(self, idx, comp, name, width, kind):
-    self.idx, self.comp, self.name, self.width, self.kind = idx, comp, name, width, kind
+  def __init__(self, idx, comp, name, width, kind, stype=None):
+    self.idx, self.comp, self.name, self.width, self.kind, self.stype = idx, comp, name, width, kind, stype
   @property
   def path(self):
     return (self.comp + '.' if self.comp else '') + self.name
@@ -37,12 +69,19 @@ class Design:
     self.regs = []                            # signal indices written by ff blocks
     self.next_id = 0
     self.explicit = []                        # (block id a, block id b): U(a) < U(b), same component
+    self.full_struct = set()                  # struct-typed signals whose whole value is available
 
   # ------------------------------------------------------------------ construction helpers
-  def new_sig(self, comp, name, width, kind):
-    s = Sig(len(self.sigs), comp, name, width, kind)
+  def new_sig(self, comp, name, width, kind, stype=None):
+    if stype is not None: width = stype.width
+    s = Sig(len(self.sigs), comp, name, width, kind, stype)
     self.sigs.append(s)
     return s
+
+  def leaf_bounds(self, s):
+    """boundaries inside which an arithmetic range of signal s must stay"""
+    if s.stype is None: return [(0, s.width)]
+    return [(lo, lo + w) for (_, lo, w) in s.stype.leaves()]
 
   def new_id(self):
     self.next_id += 1
@@ -56,9 +95,14 @@ class Design:
       if s.idx in self.regs: continue
       taken = sorted((lo, lo + w) for (g, lo, w) in self.driven if g == s.idx)
       pos = 0
+      pieces = []
       for lo, hi in taken + [(s.width, s.width)]:
-        if lo > pos: out.append((s.idx, pos, lo - pos))
+        if lo > pos: pieces.append((pos, lo))
         pos = max(pos, hi)
+      for (a, b) in pieces:
+        for (l, h) in self.leaf_bounds(s):
+          x, y = max(a, l), min(b, h)
+          if x < y: out.append((s.idx, x, y - x))
     return out
 
   # ------------------------------------------------------------------ expressions
@@ -127,7 +171,17 @@ class Design:
     g, lo, w = r
     s = self.sigs[g]
     base = 's.' + (s.name if s.comp == comp else s.path)
-    return base if (lo == 0 and w == s.width) else f'{base}[{lo}:{lo + w}]'
+    if lo == 0 and w == s.width: return base
+    if s.stype is not None:
+      named = s.stype.named()
+      for (p, l, ww, leaf) in named:
+        if leaf and (l, ww) == (lo, w): return f'{base}.{p}'
+      for (p, l, ww, leaf) in named:
+        if leaf and l <= lo and lo + w <= l + ww: return f'{base}.{p}[{lo - l}:{lo - l + w}]'
+      for (p, l, ww, leaf) in named:
+        if (l, ww) == (lo, w): return f'{base}.{p}'
+      raise ValueError(f'range {r} of struct signal {s.path} crosses a field boundary')
+    return f'{base}[{lo}:{lo + w}]'
 
   def py_expr(self, comp, e):
     k = e[0]
@@ -159,6 +213,12 @@ class Design:
 
   def source(self):
     out = ['from pymtl3 import *', '']
+    types = []
+    for sg in self.sigs:
+      if sg.stype is not None:
+        for t in sg.stype.all_types():
+          if t not in types: types.append(t)
+    for t in types: out += t.py_source() + ['']
     order = [c for c in self.comps if c != ''] + ['']
     for comp in order:
       cls = self.cls_name(comp)
@@ -166,14 +226,16 @@ class Design:
       for s in self.sigs:
         if s.comp != comp or s.name in ('reset', 'clk'): continue
         ctor = {'in': 'InPort', 'out': 'OutPort', 'wire': 'Wire'}[s.kind]
-        out.append(f'    s.{s.name} = {ctor}( Bits{s.width} )')
+        out.append(f'    s.{s.name} = {ctor}( {s.stype.name if s.stype is not None else "Bits" + str(s.width)} )')
       if comp == '':
         for ch in self.comps['']['children']:
           out.append(f'    s.{ch} = {self.cls_name(ch)}()')
         for (rd, wr, flipped, style) in self.conns:
           a, b = self.ref('', rd), self.ref('', wr)
-          if flipped: a, b = b, a
-          out.append(f'    {a} //= {b}' if (style == 0 and not a.endswith(']')) else f'    connect( {a}, {b} )')
+          ra, rb = rd, wr
+          if flipped: a, b, ra, rb = b, a, rb, ra
+          whole = (ra[1] == 0 and ra[2] == self.sigs[ra[0]].width)     # `x.f //= y` / `x[a:b] //= y` are not valid Python for signals
+          out.append(f'    {a} //= {b}' if (style == 0 and whole) else f'    connect( {a}, {b} )')
       for b in self.blocks:
         if b['comp'] == comp: out += self.py_block(b)
       byid = {b['id']: b for b in self.blocks}
@@ -187,15 +249,23 @@ class Design:
   def cls_name(self, comp):
     return f'Gen{self.uid}_{comp or "Top"}'
 
-def generate(rng, max_blocks=8, with_children=True, with_regs=True, wide=False, max_regs=3, min_regs=0):
+def generate(rng, max_blocks=8, with_children=True, with_regs=True, wide=False, max_regs=3, min_regs=0, structs=None):
   """an acyclic, single-writer design"""
   d = Design(rng, next(_uid))
   W = lambda: rng.choice([1, 2, 3, 4, 4, 8, 8, 8, 12, 16] + ([32, 64] if wide else []))
   top_reset = d.new_sig('', 'reset', 1, 'in')
+  if structs is None: structs = rng.random() < 0.5
+  stypes = []
+  if structs:
+    inner = StructT(f'SI{d.uid}', [(f'p{i}', rng.choice([1, 2, 4, 4, 8])) for i in range(rng.randint(1, 2))])
+    flat = StructT(f'SF{d.uid}', [(f'f{i}', rng.choice([1, 2, 4, 8, 8])) for i in range(rng.randint(2, 3))])
+    nest = StructT(f'SN{d.uid}', [('a', rng.choice([2, 4])), ('inner', inner), ('z', rng.choice([1, 4, 8]))])
+    stypes = [flat, nest] if rng.random() < 0.6 else [rng.choice([flat, nest])]
+  ST = lambda: (rng.choice(stypes) if stypes and rng.random() < 0.4 else None)
   n_in = rng.randint(1, 3)
-  for i in range(n_in): d.new_sig('', f'in{i}', W(), 'in')
-  for i in range(rng.randint(1, 3)): d.new_sig('', f'out{i}', W(), 'out')
-  for i in range(rng.randint(1, 4)): d.new_sig('', f'w{i}', W(), 'wire')
+  for i in range(n_in): d.new_sig('', f'in{i}', W(), 'in', ST())
+  for i in range(rng.randint(1, 3)): d.new_sig('', f'out{i}', W(), 'out', ST())
+  for i in range(rng.randint(1, 4)): d.new_sig('', f'w{i}', W(), 'wire', ST())
   children = []
   if with_children and rng.random() < 0.6:
     for c in range(rng.randint(1, 2)):
@@ -204,12 +274,12 @@ def generate(rng, max_blocks=8, with_children=True, with_regs=True, wide=False, 
       d.comps[cn] = {}
       d.comps['']['children'].append(cn)
       d.new_sig(cn, 'reset', 1, 'in')
-      for i in range(rng.randint(1, 2)): d.new_sig(cn, f'in{i}', W(), 'in')
-      for i in range(rng.randint(1, 2)): d.new_sig(cn, f'out{i}', W(), 'out')
-      for i in range(rng.randint(0, 2)): d.new_sig(cn, f'w{i}', W(), 'wire')
+      for i in range(rng.randint(1, 2)): d.new_sig(cn, f'in{i}', W(), 'in', ST())
+      for i in range(rng.randint(1, 2)): d.new_sig(cn, f'out{i}', W(), 'out', ST())
+      for i in range(rng.randint(0, 2)): d.new_sig(cn, f'w{i}', W(), 'wire', ST())
   # inputs are available; reset of children is a net from the top reset (implicit in PyMTL)
   for s in d.sigs:
-    if s.comp == '' and s.kind == 'in': d.avail.append((s.idx, 0, s.width))
+    if s.comp == '' and s.kind == 'in': mark_available(d, s)
   for cn in children:
     r = next(s for s in d.sigs if s.comp == cn and s.name == 'reset')
     add_net(d, (r.idx, 0, 1), (top_reset.idx, 0, 1), implicit=True)
@@ -219,7 +289,7 @@ def generate(rng, max_blocks=8, with_children=True, with_regs=True, wide=False, 
     rng.shuffle(cands)
     for s in cands[:rng.randint(min(min_regs, len(cands)), min(max_regs, len(cands)))]:
       d.regs.append(s.idx)
-      d.avail.append((s.idx, 0, s.width))
+      mark_available(d, s)
   # comb blocks and nets in creation order
   pending_children = list(children)
   nblocks = rng.randint(2, max_blocks)
@@ -228,7 +298,9 @@ def generate(rng, max_blocks=8, with_children=True, with_regs=True, wide=False, 
     choice = rng.random()
     comp = ''
     if children and rng.random() < 0.4: comp = rng.choice(children)
-    if choice < 0.3 and comp == '':
+    if stypes and rng.random() < 0.25:
+      make_struct_copy(d, comp)
+    elif choice < 0.3 and comp == '':
       make_net(d)
     else:
       make_comb(d, comp)
@@ -242,6 +314,37 @@ def generate(rng, max_blocks=8, with_children=True, with_regs=True, wide=False, 
       mine, regs = regs[:k], regs[k:]
       make_ff(d, comp, mine)
   return d
+
+def mark_available(d, s):
+  """the whole value of signal s is defined from now on"""
+  for (l, h) in d.leaf_bounds(s): d.avail.append((s.idx, l, h - l))
+  if s.stype is not None: d.full_struct.add(s.idx)
+
+def make_struct_copy(d, comp):
+  """y @= x (block) or y //= x (net, top only) between two signals of the same struct type"""
+  rng = d.rng
+  if comp == '':
+    ok = lambda s: (s.comp == '' and s.kind in ('wire', 'out')) or (s.comp != '' and s.kind == 'in' and s.name != 'reset')
+  else:
+    ok = lambda s: s.comp == comp and s.kind in ('wire', 'out')
+  drv = {g for (g, _, _) in d.driven}
+  ys = [s for s in d.sigs if s.stype is not None and ok(s) and s.idx not in drv and s.idx not in d.regs]
+  rng.shuffle(ys)
+  for y in ys:
+    xs = [d.sigs[g] for g in d.full_struct if d.sigs[g].stype is y.stype and g != y.idx and
+          (d.sigs[g].comp == comp or (comp == '' and d.sigs[g].comp in d.comps['']['children'] and d.sigs[g].kind == 'out'))]
+    if not xs: continue
+    x = rng.choice(xs)
+    t, src = (y.idx, 0, y.width), (x.idx, 0, x.width)
+    if comp == '' and rng.random() < 0.5:
+      add_net(d, t, src, flipped=rng.random() < 0.5, style=rng.randint(0, 1))
+      d.avail.pop()        # add_net marked the whole range; replace by per-leaf availability
+    else:
+      bid = d.new_id()
+      d.blocks.append({'id': bid, 'name': f'blk_{bid}', 'comp': comp, 'kind': 'comb', 'asgs': [(t, ('r',) + src)], 'styles': {}})
+      d.driven.append(t)
+    mark_available(d, y)
+    return
 
 def add_net(d, reader, writer, implicit=False, flipped=False, style=0):
   root = d.net_root.get(writer, writer)
@@ -307,10 +410,22 @@ def make_ff(d, comp, regs):
     if s.comp == comp or (comp == '' and s.comp in d.comps['']['children'] and s.kind == 'out'):
       readable.append((s.idx, 0, s.width))
   reset = next(s for s in d.sigs if s.comp == comp and s.name == 'reset')
+  # ranges usable in arithmetic: whole Bits signals and the leaf fields of struct signals
+  arith = []
+  for (g0, _, _) in readable:
+    for (l, h) in d.leaf_bounds(d.sigs[g0]): arith.append((g0, l, h - l))
+  whole, readable = readable, arith
   asgs, styles = [], {}
   for g in regs:
     w = d.sigs[g].width
     self_r = ('r', g, 0, w)
+    if d.sigs[g].stype is not None:
+      same = [('r', x[0], 0, w) for x in whole if d.sigs[x[0]].stype is d.sigs[g].stype]
+      e = rng.choice(same)
+      if rng.random() < 0.5:
+        e = ('m', d.gen_expr(1, [x for x in arith], 1), e, rng.choice(same)); styles[len(asgs)] = rng.choice(['ifelse', 'inline'])
+      asgs.append(((g, 0, w), e))
+      continue
     e = d.gen_expr(w, readable, rng.randint(1, 3))
     k = rng.random()
     if k < 0.35:
@@ -431,12 +546,17 @@ class RealSim:
     for s in self.d.sigs:
       obj = top
       for part in s.path.split('.'): obj = getattr(obj, part)
-      vals.append(int(obj))
+      vals.append(int(obj.to_bits()))
     return vals
 
   def set_inputs(self, ins):
+    from pymtl3.datatypes import Bits
     for g, v in ins:
-      setattr_path(self.top, self.d.sigs[g].path, v)
+      sg = self.d.sigs[g]
+      if sg.stype is not None:
+        cls = getattr(sys.modules[type(self.top).__module__], sg.stype.name)
+        v = cls.from_bits(Bits(sg.width, v))
+      setattr_path(self.top, sg.path, v)
 
 def setattr_path(top, path, v):
   parts = path.split('.')
